@@ -1,13 +1,89 @@
 (* C17 — decoding arbitrary text never crashes and only yields re-encodable problems.
-   (placeholder while the proofs are being written) *)
-From Coq Require Import ZArith List Ascii Bool.
-From Cspuz Require Import Lib.PyErr Codec.Comb Codec.TotalModel.
-Import ListNotations.
 
-Theorem fixstr_total : forall e t s, safe (deF e (FixStr t) s).
+   [safe r]: r is a result (None or a value) or the exception ValueError — never IndexError,
+   KeyError, AssertionError, TypeError, RecursionError, nor a loop that does not end (which the
+   model reports as OtherError).  The decoders are Codec/Comb.v's [de] / [de_at], Codec/Puzzles.v's
+   [deserialize_problem_cu] / [deserialize_url_cu] / [run_de] and Codec/Yajilin.v's
+   YajilinClue; the nine puzzle terms and wrapper options come from Gen/Codecs.v, regenerated
+   from cspuz/puzzle/*.py on every run.  Side conditions ([dec_ok], [single], [customs_ok],
+   [env_nonneg]) are defined in Codec/TotalModel.v.                                          *)
+From Coq Require Import ZArith List Ascii Bool.
+From Cspuz Require Import Lib.PyErr Codec.Comb Codec.CombWf Codec.Yajilin Codec.Puzzles
+  Codec.TotalModel Codec.TotalLeaf Codec.TotalRooms Codec.Total Gen.Codecs.
+Import ListNotations.
+Local Open Scope Z_scope.
+
+(* Combinator.deserialize of every term satisfying the side conditions, on EVERY text *)
+Theorem de_total : forall e c, dec_ok c = true -> customs_ok (cust e) c -> env_nonneg e ->
+  forall s, safe (de e c s).
+Proof. exact de_total_lemma. Qed.
+Print Assumptions de_total.
+
+(* ... at every offset; the reported number of characters read stays within the text *)
+Theorem de_at_total : forall e c, dec_ok c = true -> customs_ok (cust e) c -> env_nonneg e ->
+  forall data idx, safe (de_at e c data idx) /\
+    forall k l, de_at e c data idx = Ok (Some (k, l)) -> (idx + k <= Nat.max idx (length data))%nat.
+Proof. exact de_at_total_lemma. Qed.
+Print Assumptions de_at_total.
+
+(* the side condition on Seq / Grid bases is needed: C15's wf alone admits a loop that never ends *)
+Theorem wf_alone_not_enough :
+  wf (Seq (FixStr []) 3) = true /\ de (mk_env 1 1) (Seq (FixStr []) 3) [] = Err OtherError.
+Proof. split; vm_compute; reflexivity. Qed.
+Print Assumptions wf_alone_not_enough.
+
+(* the Rooms decoder on any board size (also 0 or negative) and any text *)
+Theorem rooms_de_total : forall e skip allow s, safe (de e (Rooms skip allow) s).
+Proof. intros e skip allow s. destruct (rooms_good e skip allow s) as [H _]. exact H. Qed.
+Print Assumptions rooms_de_total.
+
+(* yajilin.YajilinClue behaves like a library combinator *)
+Theorem yajilin_clue_total : custom_total yajilin_custom.
+Proof. exact yajilin_custom_total. Qed.
+Print Assumptions yajilin_clue_total.
+
+(* deserialize_problem: its own assertion (exactly one item) never fails for a single-item term *)
+Theorem problem_total : forall cu c h w, dec_ok c = true -> single c = true -> customs_ok cu c -> 0 <= h * w ->
+  forall s, safe (deserialize_problem_cu cu c s h w).
+Proof. exact problem_total_lemma. Qed.
+Print Assumptions problem_total.
+
+(* deserialize_problem_as_url with any options, on EVERY text (URL or not, any declared sizes) *)
+Theorem url_de_total : forall cu c al af rs, dec_ok c = true -> single c = true -> customs_ok cu c ->
+  forall url, safe (deserialize_url_cu cu c url al af rs).
+Proof. exact url_total_lemma. Qed.
+Print Assumptions url_de_total.
+
+(* every deserialize_<p> of the puzzle modules, with the term and options read from the source *)
+Theorem codecs_total : forall url,
+  safe (run_de no_custom deserialize_nurikabe_w url) /\
+  safe (run_de no_custom deserialize_masyu_w url) /\
+  safe (run_de no_custom deserialize_slitherlink_w url) /\
+  safe (run_de no_custom deserialize_sudoku_w url) /\
+  safe (run_de no_custom deserialize_nurimisaki_w url) /\
+  safe (run_de yajilin_custom deserialize_yajilin_w url) /\
+  safe (run_de no_custom deserialize_heyawake_w url) /\
+  safe (run_de no_custom deserialize_lits_w url) /\
+  safe (run_de no_custom deserialize_norinori_w url).
 Proof.
-  intros e t s. simpl. unfold fixstr_de.
-  destruct (Nat.ltb (length s) (length t)); simpl; auto.
-  destruct (str_eqb (firstn (length t) s) t); simpl; auto.
+  intros url. unfold run_de.
+  repeat split; apply url_total_lemma; try reflexivity;
+    solve [right; reflexivity | left; exact yajilin_custom_total].
 Qed.
-Print Assumptions fixstr_total.
+Print Assumptions codecs_total.
+
+(* a decoded Grid has exactly the board's rows and columns *)
+Theorem de_dims_grid : forall e c1 s k p, 0 <= height e -> 0 <= width e ->
+  de e (Grid c1 None) s = Ok (Some (k, [p])) -> grid_shape (height e) (width e) p.
+Proof. exact grid_dims_lemma. Qed.
+Print Assumptions de_dims_grid.
+
+(* URL level: the returned sizes are the declared ones (third / second field, in this order)
+   and a Grid codec's problem has exactly these dimensions *)
+Theorem url_de_dims : forall cu c1 al af rs url name wd hd body v,
+  url_match url = Some (name, wd, hd, body) ->
+  deserialize_url_cu cu (Grid c1 None) url al af rs = Ok (Some v) ->
+  exists w h p, py_int wd 10 = Ok w /\ py_int hd 10 = Ok h /\ grid_shape h w p /\
+                v = (if rs then VTup [VInt h; VInt w; p] else p).
+Proof. exact url_dims_lemma. Qed.
+Print Assumptions url_de_dims.
